@@ -1,6 +1,6 @@
 CONSTANTS MaxView = 1 ByzBudget = 3 Blocks <- cBlocks Hdr <- cHdr Dev = {} Ablate = {}
 INIT Init
 NEXT Next
-INVARIANTS Agreement ExternalValidity NoRejectedCommitted NoEquivocation HigherViewOnlyByCertificate
+INVARIANTS Agreement LockedNodeLevel ExternalValidity NoRejectedCommitted NoEquivocation HigherViewOnlyByCertificate
 VIEW View
 CHECK_DEADLOCK FALSE
